@@ -261,15 +261,19 @@ def check_retype(types):
     from mofun import rough_uff as U
     from mofun.atomic_masses import ATOMIC_MASSES
     a = mk_atoms([(i, i + 1) for i in range(len(types) - 1)], types)
-    with quiet():
-        U.retype_atoms_from_uff_types(a, types)
-    for i, t in enumerate(types):
-        k = int(a.atom_types[i])
-        el = t[0:2].replace('_', '')
-        if a.atom_type_labels[k] != t or a.atom_type_elements[k] != el or a.atom_type_masses[k] != ATOMIC_MASSES[el]:
-            return "atom %d of UFF type %s resolves to label %r element %r mass %r" % (i, t, a.atom_type_labels[k], a.atom_type_elements[k], a.atom_type_masses[k])
-    if len(set(a.atom_type_labels)) != len(a.atom_type_labels):
-        return "duplicate labels in the rebuilt type table"
+    # typed once, then typed again with the same SET of types distributed differently over the atoms (and once more with a repeated type)
+    rounds = [list(types), list(types[1:]) + list(types[:1]), [types[0]] * (len(types) - 1) + [types[-1]]]
+    for r, assigned in enumerate(rounds):
+        with quiet():
+            U.retype_atoms_from_uff_types(a, assigned)
+        for i, t in enumerate(assigned):
+            k = int(a.atom_types[i])
+            el = t[0:2].replace('_', '')
+            if a.atom_type_labels[k] != t or a.atom_type_elements[k] != el or a.atom_type_masses[k] != ATOMIC_MASSES[el]:
+                return "atom %d of UFF type %s resolves to label %r element %r mass %r (typing round %d: %r)" % (
+                    i, t, a.atom_type_labels[k], a.atom_type_elements[k], a.atom_type_masses[k], r, assigned)
+        if len(set(a.atom_type_labels)) != len(a.atom_type_labels):
+            return "duplicate labels in the rebuilt type table"
     return None
 
 
